@@ -69,6 +69,7 @@ type caseSpec struct {
 	Engine  string `json:"engine"`
 	Cause   string `json:"cause"`
 	Moment  int    `json:"moment"`
+	Conc    string `json:"conc,omitempty"`    // concurrency scenario (conc.go): "<order>/<context arrangement>"
 	Prewarm bool   `json:"prewarm,omitempty"` // same binaries compiled first by a runtime WITHOUT close-on-context-done sharing the compilation cache
 }
 
@@ -80,6 +81,9 @@ func (c caseSpec) String() string {
 	s := fmt.Sprintf("%s/%s/%s/%s", c.Shape, c.Engine, c.Cause, m)
 	if c.Prewarm {
 		s += "/prewarmed-cache"
+	}
+	if c.Conc != "" {
+		s += "/concurrent:" + c.Conc
 	}
 	return s
 }
@@ -342,6 +346,9 @@ func runtimeConfig(engine string) wazero.RuntimeConfig {
 
 // runCase executes one case and returns "<outcome>|<detail>". It does not return if the engine hangs.
 func runCase(idx int, spec caseSpec, sh *shape) string {
+	if spec.Conc != "" {
+		return runConcCase(idx, spec, sh)
+	}
 	bg := context.Background()
 	r := &caseRun{spec: spec, sh: sh, idx: idx, t0: time.Now()} // markers carry the time since the case started
 	cfg := runtimeConfig(spec.Engine).WithCloseOnContextDone(true)
